@@ -12,14 +12,14 @@ fi
 cd $WT && git checkout -q --detach $(git -C /repo rev-parse HEAD) 2>/dev/null; git checkout -q -- . ; git clean -qfd -e _build
 [ -d _build ] || cmake -G Ninja -B _build -DCMAKE_BUILD_TYPE=RelWithDebInfo >/dev/null
 echo "== demo on unchanged tree"
-REPO=$WT OUT=/tmp/confirm-demo-$$ sh $D/build.sh > /tmp/confirm-un-$$.log 2>&1; rc0=$?
+(cd $D && REPO=$WT OUT=/tmp/confirm-demo-$$ sh ./build.sh) > /tmp/confirm-un-$$.log 2>&1; rc0=$?
 tail -2 /tmp/confirm-un-$$.log
 git apply $D/patch.diff || { echo "CONFIRM-ERROR patch does not apply"; exit 2; }
 echo "== build + suite with the change"
 cmake --build _build -j8 2>&1 | grep -E "error|FAILED" | head -5
 ctest --test-dir _build -j8 2>&1 | grep -E "tests passed|tests failed" ; suite=$(ctest --test-dir _build -j8 2>&1 | grep -c "100% tests passed")
 echo "== demo with the change"
-REPO=$WT OUT=/tmp/confirm-demo-$$ sh $D/build.sh > /tmp/confirm-ch-$$.log 2>&1; rc1=$?
+(cd $D && REPO=$WT OUT=/tmp/confirm-demo-$$ sh ./build.sh) > /tmp/confirm-ch-$$.log 2>&1; rc1=$?
 tail -3 /tmp/confirm-ch-$$.log
 git checkout -q -- . ; git clean -qfd -e _build
 rm -f /tmp/confirm-demo-$$ /tmp/confirm-un-$$.log /tmp/confirm-ch-$$.log
